@@ -27,6 +27,8 @@ pub enum Plan {
     ResetAt(usize, u64),
     StopSending(u64),
     MalformedUppercase,
+    /// a healthy head and body, then trailers with an uppercase field name
+    MalformedTrailers,
     MalformedNoMethodOrStatus,
     MalformedBadValue,
     Oversize,
@@ -69,6 +71,7 @@ fn healthy_message(me: Endpoint, id: u64) -> Vec<u8> {
     b.extend(rf::frame(rf::DATA, &body[..10]));
     b.extend(rf::frame(0x21, &[0x00])); // a reserved frame in between
     b.extend(rf::frame(rf::DATA, &body[10..]));
+    b.extend(rf::frame(rf::HEADERS, TRAILER_SECTION)); // trailers t: v
     b
 }
 
@@ -246,6 +249,15 @@ pub fn execute(case: &Case, seed: u64, read: Policy) -> Outcome {
                         v
                     }
                     Plan::FinBeforeHeaders => vec![Step::Write(rf::frame(0x21, &[0x01])), Step::Fin],
+                    Plan::MalformedTrailers => {
+                        let f = |n: &str, v: &[u8]| (n.as_bytes().to_vec(), v.to_vec());
+                        let mut b = healthy_head(case.me);
+                        b.extend(rf::frame(rf::DATA, b"xx"));
+                        b.extend(rf::frame(rf::HEADERS, &rq::encode_literal_section(&[f("Upper", b"v")], false)));
+                        let mut v = pieces(&b);
+                        v.push(Step::Fin);
+                        v
+                    }
                     p => {
                         let mut b = faulty_head(case.me, p);
                         b.extend(rf::frame(rf::DATA, b"xx"));
@@ -394,7 +406,7 @@ pub fn judge(case: &Case, o: &Outcome) -> Vec<(String, String)> {
         match *plan {
             Plan::Healthy => {
                 let want_body = body_for(id);
-                let ok = m.head == "ok" && m.body == want_body && m.body_end == "none" && m.trailers == "none" && m.stage == "done" && (case.me == Endpoint::Client && csend == "ok" || case.me == Endpoint::Server && m.sent == "ok");
+                let ok = m.head == "ok" && m.body == want_body && m.body_end == "none" && m.trailers == "some:t=[76]" && m.stage == "done" && (case.me == Endpoint::Client && csend == "ok" || case.me == Endpoint::Server && m.sent == "ok");
                 if !ok {
                     out.push((
                         format!("C07:{role}:healthy-request-harmed:{}", first_err.map(|e| e.to_string()).unwrap_or_else(|| if m.body != want_body { "body-differs".into() } else { format!("stage={}", m.stage) })),
@@ -436,6 +448,12 @@ pub fn judge(case: &Case, o: &Outcome) -> Vec<(String, String)> {
                     out.push((format!("C07:{role}:malformed-reported-as:{}", if m.head.is_empty() { "pending" } else { &m.head }), format!("{ctx}: stream {id}: expected {want}; {m:?}")));
                 }
             }
+            Plan::MalformedTrailers => {
+                let want = format!("Stream({:#x})", auto::H3_MESSAGE_ERROR);
+                if m.head != "ok" || m.trailers != want {
+                    out.push((format!("C07:{role}:malformed-trailers-reported-as:{}", if m.trailers.is_empty() { "pending" } else { &m.trailers }), format!("{ctx}: stream {id}: expected {want} from recv_trailers; {m:?}")));
+                }
+            }
             Plan::Oversize => {
                 if !m.head.starts_with("HeaderTooBig(") {
                     out.push((format!("C07:{role}:oversize-reported-as:{}", if m.head.is_empty() { "pending" } else { &m.head }), format!("{ctx}: stream {id}: expected HeaderTooBig; {m:?}")));
@@ -458,6 +476,7 @@ fn plan_json(p: Plan) -> Value {
         Plan::ResetAt(k, c) => json!(["reset", k, c]),
         Plan::StopSending(c) => json!(["stop", c]),
         Plan::MalformedUppercase => json!("upper"),
+        Plan::MalformedTrailers => json!("uppertrailers"),
         Plan::MalformedNoMethodOrStatus => json!("nomethod"),
         Plan::MalformedBadValue => json!("badvalue"),
         Plan::Oversize => json!("oversize"),
@@ -470,6 +489,7 @@ fn plan_from(v: &Value) -> Plan {
         Value::String(s) => match s.as_str() {
             "healthy" => Plan::Healthy,
             "upper" => Plan::MalformedUppercase,
+            "uppertrailers" => Plan::MalformedTrailers,
             "nomethod" => Plan::MalformedNoMethodOrStatus,
             "badvalue" => Plan::MalformedBadValue,
             "oversize" => Plan::Oversize,
@@ -487,7 +507,7 @@ pub fn run(args: &Args) -> i32 {
     let mut rep = Report::new("C07", args.tier, args.seed, "model_checking");
     rep.exhaustive = true;
     rep.rule = format!(
-        "{n} concurrent requests on one connection; each request is healthy or suffers one fault of {{RESET(0x10c) after 0 / 1 / header-boundary / mid-DATA bytes, RESET(0) mid-frame, STOP_SENDING(0x10c), uppercase field name, missing :method/:status, LF in a value, section over the limit, FIN before HEADERS (server role)}}, healthy heads padded to exactly the configured limit; every assignment (including all healthy, and all faulty when homogeneous in the first two), for a real server and a real client against a scripted peer that plays the streams round-robin in three writes each. Every execution with <= {bound} deviations (scheduling among handler/request tasks, driver and script; an application pause between any two calls of the request API; chunk cuts and delayed delivery on every request stream), plus one-byte-per-read. Oracle: healthy requests deliver exactly their own position-coded bytes and complete, their responses are complete on the wire; no close(); drivers report no error; each faulty request reports the stream-level error the property names and never a connection error. states = distinct (transport cursors, per-request progress) fingerprints; non-trivial = executions with a deviation."
+        "{n} concurrent requests on one connection; each request is healthy or suffers one fault of {{RESET(0x10c) after 0 / 1 / header-boundary / mid-DATA bytes, RESET(0) mid-frame, STOP_SENDING(0x10c), uppercase field name in the head or in the trailers, missing :method/:status, LF in a value, section over the limit, FIN before HEADERS (server role)}}, healthy heads padded to exactly the configured limit; every assignment (including all healthy, and all faulty when homogeneous in the first two), for a real server and a real client against a scripted peer that plays the streams round-robin in three writes each. Every execution with <= {bound} deviations (scheduling among handler/request tasks, driver and script; an application pause between any two calls of the request API; chunk cuts and delayed delivery on every request stream), plus one-byte-per-read. Oracle: healthy requests deliver exactly their own position-coded bytes and complete, their responses are complete on the wire; no close(); drivers report no error; each faulty request reports the stream-level error the property names and never a connection error. states = distinct (transport cursors, per-request progress) fingerprints; non-trivial = executions with a deviation."
     );
     rep.assumptions = vec!["a STOP_SENDING that arrives after the sending half completed is not reported (ok accepted)".into(), "client role: a response stream FIN-ed before HEADERS is not in the fault set (DESIGN.md 7)".into()];
     rep.bound_note = format!("{n} requests, deviation bound {bound}");
@@ -505,6 +525,7 @@ pub fn run(args: &Args) -> i32 {
             Plan::ResetAt(hlen + 14, 0x0),
             Plan::StopSending(0x10c),
             Plan::MalformedUppercase,
+            Plan::MalformedTrailers,
             Plan::MalformedNoMethodOrStatus,
             Plan::MalformedBadValue,
             Plan::Oversize,
